@@ -351,7 +351,7 @@ def container_body(c):
     (A, B, U, x0, V, D, E, w0), _ = values.generic(vseed, [sx, sx, sx, sx, sw, sw, sw, sw], -1.0, 1.0)
     kind = c.choice(["tuple", "list", "dict", "nested", "tuple3"])
     spell = c.int(0, 4)
-    op = c.choice(["grad", "value_and_grad", "make_vjp", "grad_and_aux", "make_jvp", "argnum_tuple"])
+    op = c.choice(["grad", "value_and_grad", "make_vjp", "grad_and_aux", "make_jvp", "argnum_tuple", "multigrad_dict"])
     pad = 0.75
 
     def core(x, w, ns=anp):
@@ -404,6 +404,21 @@ def container_body(c):
             checks.append((val, y0, "value"))
         elif op == "grad_and_aux":
             g, aux = autograd.grad_and_aux(lambda p: (fun(p), {"note": 1.0}))(params)
+        elif op == "multigrad_dict":
+            # gradients with respect to ALL parameters by name; the container is a parameter left at its default value
+            from autograd import differential_operators as do_
+
+            def fm(q, p=params):
+                return fun(p) * q
+
+            gd = do_.multigrad_dict(fm)(1.5)
+            checks.append((gd["q"], y0, "multigrad_dict wrt the scalar factor"))
+            g = gd["p"]
+            from autograd.core import vspace as _vs
+
+            if not _vs(g) == _vs(params):
+                return fail("wrong_space", f"multigrad_dict: the gradient of a {kind} parameter left at its default is a {type(g).__name__}", bucket("structure"), sample=sample)
+            gx, gw = 1.5 * gx, 1.5 * gw
         elif op == "argnum_tuple":
             # the container passed next to another argument, both differentiated: grad(fun, (0, 1))
             g2 = autograd.grad(lambda q, p: fun(p) * q, (0, 1))(1.5, params)
@@ -426,6 +441,8 @@ def container_body(c):
         if g is not None:
             lx, lw = leaves(g)
             checks += [(lx, gx, f"{op}: leaf x"), (lw, gw, f"{op}: leaf w")]
+    except ImportError as e:
+        return raised(e, "container_args", sample=sample)  # (multigrad_dict needs the funcsigs package: a loud refusal)
     except Exception as e:
         if not from_autograd(e):
             raise
